@@ -21,7 +21,7 @@ case "$ID" in
     sslog="$B/build_ss.log"
     ( cd "$ROOT/tools/sendsync" && CARGO_TARGET_DIR="$B/ss" cargo check --offline ) >"$sslog" 2>&1
     if [ $? -ne 0 ]; then
-      if grep -q 'E0277' "$sslog" && grep -q 'tools/sendsync/src/lib.rs' "$sslog" && ! grep -q 'could not compile `regress`' "$sslog"; then
+      if grep -q 'E0277' "$sslog" && grep -q 'could not compile `sendsync`' "$sslog" && ! grep -q 'could not compile `regress`' "$sslog"; then
         python3 "$ROOT/tools/sendsync_violation.py" "$sslog" "${VERIF_TIER:-quick}"
         exit 1
       fi
